@@ -5,6 +5,7 @@
 From Coq Require Import Reals ZArith Lra Lia Psatz.
 From Coquelicot Require Import Coquelicot.
 From Romea Require Import Num NumR AnglesModel AnglesProofs AnglesRoundtrip PoseCovModel PoseCovProofs DerivProofs PoseJacProofs.
+From Romea Require Export PoseJacMrot PoseJacDx PoseJacDy PoseJacDz.
 Local Open Scope R_scope.
 
 Lemma is_derive_Ratan2_pos (u v : R -> R) t du dv :
@@ -37,19 +38,6 @@ Proof.
   - unfold scal, opp; simpl; unfold mult, opp; simpl. unfold Rsqr. field.
     assert (0 < 1 - w t * w t) by nra. pose proof (sqrt_lt_R0 _ H). lra.
 Qed.
-
-(* entries of l * Rz*Ry*Rx and their derivatives *)
-Definition Mrot (l : mat3 R) (x y z : R) : mat3 R := mmul3 ROps l (rot_zyx x y z).
-
-Lemma dM_x l x y z i j :
-  is_derive (fun t => mget3 (Mrot l t y z) i j) x (mget3 (mmul3 ROps l (dRdX_true x y z)) i j).
-Proof. destruct l as [l0 l1 l2 l3 l4 l5 l6 l7 l8]. unfold Mrot. entry_cases i j; unfold_rot; auto_derive; trivial; ring. Qed.
-Lemma dM_y l x y z i j :
-  is_derive (fun t => mget3 (Mrot l x t z) i j) y (mget3 (mmul3 ROps l (dRdY_true x y z)) i j).
-Proof. destruct l as [l0 l1 l2 l3 l4 l5 l6 l7 l8]. unfold Mrot. entry_cases i j; unfold_rot; auto_derive; trivial; ring. Qed.
-Lemma dM_z l x y z i j :
-  is_derive (fun t => mget3 (Mrot l x y t) i j) z (mget3 (mmul3 ROps l (dRdZ_true x y z)) i j).
-Proof. destruct l as [l0 l1 l2 l3 l4 l5 l6 l7 l8]. unfold Mrot. entry_cases i j; unfold_rot; auto_derive; trivial; ring. Qed.
 
 (* the angles rotation3DToEulerAngles extracts, before between0And2Pi *)
 Definition raw_roll (m : mat3 R) : R := Ratan2 (m21 m) (m22 m).
